@@ -15,7 +15,7 @@ FEATS = ('send', 'tempo', 'spawn', 'pause', 'rand', 'raise')
 
 def sig(mode, tr, at, why):
     ops = {i['op'] for b in tr['prog']['routines'].values() for i in b}
-    feat = '+'.join(sorted(ops & {'T', 'X', 'Z', 'K', 'D'})) or 'plain'
+    feat = '+'.join(sorted(ops & {'T', 'X', 'Z', 'K', 'KC', 'D'})) or 'plain'
     return 'modes:%s:%s:%s' % (mode, why, feat)
 
 
@@ -27,6 +27,9 @@ def run(ctx):
     rnd = random.Random(ctx.seed + 13)
     n = 4000 if thorough else 300
     progs = [T.gen_program(rnd, i, cls='B', feats=FEATS) for i in range(n)]
+    nr = n // 3
+    progs += [T.gen_rand_program(rnd, n + i) for i in range(nr)]
+    n += nr
     nrt1 = T.run_mode(ctx, progs, 'nrt', hashseed='0')
     nrt2 = T.run_mode(ctx, progs, 'nrt', hashseed='12345')
     rts = []
